@@ -121,6 +121,8 @@ fn rows_to_dense(r: &[Vec<f64>]) -> Dense {
 
 const NPTS: u64 = 3 * 6 * 3;
 const MUS: [f64; 3] = [1.0, 1e-6, 1e3];
+/// common scale factor applied to the whole lattice (cones are invariant under positive scaling)
+const SCALES: [f64; 3] = [1.0, 1e8, 1e-8];
 
 pub struct Calculus {
     pub kind: NKind,
@@ -138,7 +140,9 @@ impl Calculus {
         let mu = *d.pick(&MUS);
         let zi = d.take(NPTS);
         let si = d.take(NPTS);
-        (nonsym_point(&self.kind, true, zi), nonsym_point(&self.kind, false, si), mu)
+        let sc = *d.pick(&SCALES);
+        let scale = |v: Vec<f64>| -> Vec<f64> { v.into_iter().map(|x| x * sc).collect() };
+        (scale(nonsym_point(&self.kind, true, zi)), scale(nonsym_point(&self.kind, false, si)), mu)
     }
 }
 
@@ -147,14 +151,14 @@ impl Space for Calculus {
         format!("barrier-calculus-{:?}", self.kind)
     }
     fn size(&self) -> u64 {
-        MUS.len() as u64 * NPTS * NPTS
+        (MUS.len() * SCALES.len()) as u64 * NPTS * NPTS
     }
     fn describe(&self, id: u64) -> Value {
         let (z, s, mu) = self.decode(id);
         json!({"cone": format!("{:?}", self.kind), "z": z, "s": s, "mu": mu})
     }
     fn bound(&self) -> Value {
-        json!({"dual_points": NPTS, "primal_points": NPTS, "mu": MUS, "lattice": "magnitudes {1,1e-3,1e3} x boundary fractions {0,+-.5,+-.99,1-1e-6} x skew {1,1e-2,1e2}"})
+        json!({"dual_points": NPTS, "primal_points": NPTS, "mu": MUS, "lattice": "magnitudes {1,1e-3,1e3} x boundary fractions {0,+-.5,+-.99,1-1e-6} x skew {1,1e-2,1e2}", "common_scale": SCALES})
     }
     fn run(&self, id: u64, ctx: &mut Ctx) -> CaseResult {
         let (z, s, mu) = self.decode(id);
